@@ -88,6 +88,12 @@ def cases(tier):
             for loc in LOCS:
                 for top in ('absent', 'sticky'):
                     out.append({'m': m, 'top': top, 'tu': 0, 'alt': 'absent', 'loc': loc, 'env': 'unset', 'opt': 'td-same-slash', 'fb': 'off', 'uid': 0})
+        # --trash-dir spelled LINK/../dir relative to the working directory (LINK -> a directory elsewhere on the same volume)
+        for m in ('v1', 'nested'):
+            for e in ('unset', 'xdg'):
+                for fb in ('off', 'both'):
+                    for top in ('absent', 'sticky'):
+                        out.append({'m': m, 'top': top, 'tu': 0, 'alt': 'absent', 'loc': 'home', 'env': e, 'opt': 'td-dotdot', 'fb': fb, 'uid': 0})
         # the home trash lives on /mnt/V1, the file on /mnt/v1
         for loc in ('other', 'via-symlink', 'home'):
             for fb in ('off', 'both'):
@@ -208,6 +214,9 @@ def run_case(c):
     T = None
     if c['opt'] in ('td-same', 'td-same-slash'):
         T = E.rsplit('/', 2)[0] + '/mytrash'          # sibling of the parent dir: same volume as the file's parent
+    elif c['opt'] == 'td-dotdot':
+        W.dir('/home/far/sub').link('/home/u/w/tl', '/home/far/sub')
+        T = '/home/far/mytrash'                      # what tl/../mytrash means for the kernel (collapsed lexically it would be /home/u/w/mytrash)
     elif c['opt'] == 'td-other':
         T = '/mnt/v2/mytrash' if not E.startswith('/mnt/v2') else '/home/u/mytrash'
         if '/mnt/v2' not in mounts:
@@ -224,7 +233,7 @@ def run_case(c):
         W.link(E.rsplit('/', 2)[0] + '/farlink', '/mnt/v2/far')
         T = E.rsplit('/', 2)[0] + '/farlink/mytrash'                                  # the trash dir's PARENT is a link
     if T:
-        argv += ['--trash-dir', T + ('/' if c['opt'] == 'td-same-slash' else '')]
+        argv += ['--trash-dir', 'tl/../mytrash' if c['opt'] == 'td-dotdot' else T + ('/' if c['opt'] == 'td-same-slash' else '')]
     if c['fb'] in ('flag', 'both', 'flag+env0', 'flag+envyes'):
         argv.append('--home-fallback')
     argv.append(arg)
